@@ -87,6 +87,9 @@ pub fn into_bytes_incircuit(
     use CircuitValue::*;
     match input {
         Native(x) => {
+            if n as u32 > F::NUM_BITS.div_ceil(8) {
+                return Err(Error::Other(format!("cannot convert Native to Bytes({n})")));
+            }
             let bytes = std_lib.assigned_to_le_bytes(layouter, x, Some(n))?;
             Ok(bytes.to_vec().into())
         }
